@@ -86,6 +86,15 @@ class ToGFA2:
         "Length of segment {} unknown".format(self.to_segment.name))
     return gfapy.LastPos(length)
 
+  def _pos_on(self, field, value):
+    """Position on the segment in field; a LastPos, if it is known to be
+    the end of the segment."""
+    line = getattr(self, field)
+    length = line.length if isinstance(line, gfapy.Line) else None
+    if length is not None and value == length:
+      return gfapy.LastPos(value)
+    return value
+
   def _check_overlap(self):
     if isinstance(self.overlap, gfapy.Placeholder):
       raise gfapy.ValueError(
